@@ -41,7 +41,7 @@ func QueryEntries(p *core.Program) []*types.Func {
 	mutators := map[string]bool{"InsertObject": true, "DeleteObject": true, "SetResources": true, "ClearResources": true, "AddObjectsForExposureAnalysis": true, "AddPodByNameAndNamespace": true}
 	var out []*types.Func
 	for _, m := range p.Methods(core.PkgEval, "PolicyEngine") {
-		if m.Obj.Exported() && !mutators[m.Obj.Name()] {
+		if m.Obj.Exported() && !mutators[core.RefName(m.Obj)] {
 			out = append(out, m.Obj)
 		}
 	}
